@@ -53,7 +53,7 @@ def recheck(m):
         shutil.rmtree(tmp, ignore_errors=True)
 
 def main():
-    ap = argparse.ArgumentParser(); ap.add_argument("--jobs", type=int, default=4); ap.add_argument("--only"); ap.add_argument("--limit", type=int); ap.add_argument("--out", required=True); ap.add_argument("--recheck")
+    ap = argparse.ArgumentParser(); ap.add_argument("--jobs", type=int, default=4); ap.add_argument("--only"); ap.add_argument("--limit", type=int); ap.add_argument("--out", required=True); ap.add_argument("--recheck"); ap.add_argument("--set2", action="store_true")
     a = ap.parse_args()
     if a.recheck:
         # --recheck OLD.jsonl: survivors of OLD that no check reported are checked again with the current binary
@@ -65,7 +65,7 @@ def main():
                 f.write(json.dumps(r) + "\n"); f.flush()
                 print("recheck %s:%d %s [%s] alarms=%s" % (r["file"], r["line"], r["kind"], r["func"], ",".join(sorted(r["alarms"])) or "NONE"), flush=True)
         return 0
-    out = subprocess.run([os.path.join(V, "bin", "mutgen"), "/repo"], capture_output=True, text=True).stdout
+    out = subprocess.run([os.path.join(V, "bin", "mutgen"), "/repo"] + (["set2"] if a.set2 else []), capture_output=True, text=True).stdout
     muts = [json.loads(l) for l in out.splitlines()]
     if a.only: muts = [m for m in muts if a.only in m["file"]]
     if a.limit: muts = muts[:a.limit]
